@@ -231,6 +231,25 @@ WEIRD_NAMES = {
 }
 
 
+# ---- source SCC whose own succession diagram is nested: a motif-avoidant module that only runs inside an inner (non-root, non-minimal) trap space of its
+# component, next to a second source SCC - the shape the component-wise drivers (expand_scc / expand_block) copy node by node into the main diagram
+# (added after the round-5 seeded-change review: C12-m5 needs exactly this)
+def nested_scc_nets():
+    gates = {
+        "latch_on": ("{g} & ", "g, g | (A & B & C)"),                 # the module runs inside the trap space g=1 of its own component
+        "latch_on_plain": ("{g} & ", "g, g | (A & B)"),
+        "pair_on": ("{g} & ", "g, h | (A & B & C); h, g"),            # the enabling trap space is a two-variable motif
+    }
+    seconds = {"pos_pair": "E, F; F, E", "neg_pair": "E, !F; F, !E", "self": "E, E | (E & E)", "latch": "E, E | F; F, !F & !E"}
+    out = []
+    for gn, (pre, grule) in gates.items():
+        for sn, srule in seconds.items():
+            core = "A, {p}((!A & !B) | C); B, {p}((!A & !B) | C); C, {p}A & B".replace("{p}", pre.replace("{g}", "g"))
+            out.append((f"nested_scc_{gn}_{sn}", norm(core + "; " + grule + "; " + srule)))
+    out.append(("nested_scc_down", norm("A, g & ((!A & !B) | C); B, g & ((!A & !B) | C); C, g & A & B; g, g | (A & B & C); E, F; F, E; d, C & E")))
+    return out
+
+
 def hand_nets(max_vars: int = 10):
     return [(k, v) for k, v in HAND.items() if len(variables(v)) <= max_vars]
 
